@@ -1,4 +1,5 @@
 import MakoModel.Encoding.Agree
+import MakoModel.Encoding.NonExamples
 /-!
 # C18 – template text round-trips through input and output encodings
 
@@ -152,6 +153,30 @@ example : stripBom ([0xEF, 0xBB, 0xBF] ++ asciiBytes "## coding: UTF-8\nhi".toLi
     sniff (asciiBytes "## coding: UTF-8\nhi".toList) = some utf8Alias ∧ env0.isUtf8 utf8Alias = true ∧
     lexStart env0 (.bytes ([0xEF, 0xBB, 0xBF] ++ asciiBytes "## coding: UTF-8\nhi".toList)) none =
       .ok ⟨utf8Name, "## coding: UTF-8\nhi".toList, 17⟩ := by decide +kernel
+
+/-- What registry coherence (`Env.Coherent`: a name the registry calls utf-8 denotes the codec `"utf-8"` denotes) buys:
+a BOM in front of a template whose comment names utf-8 by any alias is redundant – with the BOM (decoded as `"utf-8"`)
+and without it (decoded by the comment's name) the lexer gets the same text. -/
+theorem bom_redundant_with_agreeing_comment (env : Env) (hco : env.Coherent) (b r : Bytes) (n : Name) (c : Codec)
+    (t : Text) (known : Option Name) (hb : stripBom b = some r) (hr : stripBom r = none) (hs : sniff r = some n)
+    (hn : env.isUtf8 n = true) (hc : env.codecOf n = some c) (hd : c.dec r = some t) :
+    decodeRawStream env (.bytes b) true known = .ok (utf8Name, .str t) ∧
+    decodeRawStream env (.bytes r) true known = .ok (n, .str t) := by
+  have hcu : env.codecOf utf8Name = some c := by
+    have := hco n hn
+    rw [defaults_are_utf8.2.2.1] at this
+    rw [← this, hc]
+  refine ⟨bom_agreeing_comment env c b r t known hb (Or.inr ⟨n, hs, hn⟩) hcu hd, ?_⟩
+  simp [decodeRawStream, comment_beats_input_encoding env r n known hr hs, hc, hd]
+
+-- `env0` is coherent; BOM + `## coding: UTF-8\nhi`
+example : env0.Coherent ∧ env0.isUtf8 utf8Alias = true ∧ env0.codecOf utf8Alias = some utf8Codec ∧
+    stripBom (asciiBytes "## coding: UTF-8\nhi".toList) = none := by
+  refine ⟨?_, by decide, rfl, by decide +kernel⟩
+  intro n hn
+  have h : n = utf8Name ∨ n = utf8Alias := by simpa [env0] using hn
+  rw [defaults_are_utf8.2.2.1]
+  rcases h with rfl | rfl <;> rfl
 
 /-! ## 3. Undecodable input raises `CompileException` -/
 
@@ -310,6 +335,42 @@ example : AsciiCompatible utf8Codec ∧
 -- non-vacuity of the weak law: it follows from the strict one, e.g. for utf-8
 example : AsciiPrefix utf8Codec := asciiPrefix_of_asciiCompatible _ utf8_asciiCompatible
 
+/-- **Exactly** when the bytes path and the text path of `decode_raw_stream` differ, for a text `t` with bytes `b` in
+its declared codec (no hypothesis on the codec beyond the round trip of this text, no guard on `t`): they differ iff
+the name found in `b.decode("utf-8", "ignore")` and the name found in `t` lead to different encoding names
+(both falling back to `input_encoding`/utf-8).  So `HeaderOk` in `bytes_compile_as_text` is a sufficient *syntactic*
+condition for the right-hand side to be false, and nothing but the sniffing decode can make the paths differ. -/
+theorem bytes_vs_text_disagree_iff (env : Env) (c : Codec) (t : Text) (b : Bytes) (hrt : RoundTripOn c t b)
+    (hbom : stripBom b = none) (known : Option Name) (hdecl : env.codecOf (chooseStr t known) = some c) :
+    decodeRawStream env (.bytes b) true known ≠ decodeRawStream env (.str t) true known ↔
+      (codingName (utf8Ignore b)).getD (orDefault known utf8Name) ≠ (codingName t).getD (orDefault known utf8Name) := by
+  have hstr : decodeRawStream env (.str t) true known = .ok (chooseStr t known, .str t) := rfl
+  have hct : chooseStr t known = (codingName t).getD (orDefault known utf8Name) := by
+    simp only [chooseStr, defaults_are_utf8.1]; cases codingName t <;> rfl
+  have hcb : chooseBytes env b known = .ok ((codingName (utf8Ignore b)).getD (orDefault known utf8Name), b) := by
+    simp only [chooseBytes, hbom, sniff, defaults_are_utf8.2.1]; cases codingName (utf8Ignore b) <;> rfl
+  constructor
+  · intro hne heq
+    apply hne
+    rw [hstr, hct]
+    rw [hct] at hdecl
+    simp [decodeRawStream, hcb, heq, hdecl, hrt.2]
+  · intro hne heq
+    apply hne
+    rw [hstr, hct] at heq
+    simp only [decodeRawStream, hcb, if_true] at heq
+    repeat' split at heq
+    all_goals first
+      | (cases heq; done)
+      | (injection heq with heq; injection heq with h1 _)
+
+/-- in particular (strictly ASCII-compatible codec): the paths can only differ outside `HeaderOk` -/
+theorem disagree_implies_not_headerOk (env : Env) (c : Codec) (hA : AsciiCompatible c) (t : Text) (b : Bytes)
+    (hrt : RoundTripOn c t b) (hbom : stripBom b = none) (known : Option Name)
+    (hdecl : env.codecOf (chooseStr t known) = some c)
+    (hne : decodeRawStream env (.bytes b) true known ≠ decodeRawStream env (.str t) true known) : ¬ HeaderOk t :=
+  fun hh => hne (bytes_compile_as_text env c hA t b hrt hh hbom known hdecl).1
+
 /- OPEN (finding F-C18-2): the full-strength statement is `bytes_compile_as_text` without `HeaderOk`.
    `decode_raw_stream` looks for the comment in `text.decode("utf-8", "ignore")`, which *drops* bytes that are not
    UTF-8: a `#…coding:` that is not at the start of the text moves to the start when the bytes before it are dropped,
@@ -328,6 +389,28 @@ theorem bytes_compile_as_text_counterexample :
     by decide +kernel⟩
   have : chooseStr "é# coding: ascii\nx".toList (some latin1Name) = latin1Name := by decide +kernel
   rw [this]; rfl
+
+/-! ## 4b. Which codecs the theorems speak about -/
+
+/-- UTF-16-BE is no instance of anything above: it satisfies neither `AsciiPrefix` nor `AsciiCompatible`, the only two
+codec laws under which a theorem of this file relates bytes and text (`'a'` is `00 61`). -/
+theorem utf16be_is_a_non_example : ¬ AsciiPrefix utf16beCodec ∧ ¬ AsciiCompatible utf16beCodec :=
+  ⟨utf16be_not_asciiPrefix, utf16be_not_asciiCompatible⟩
+
+/-- The shift_jis situation, precisely: a stateless codec that writes ASCII as itself but uses an ASCII-range byte inside
+the encoding of some non-ASCII character (shift_jis trail bytes 0x40–0x7E) satisfies `AsciiPrefix` and not
+`AsciiCompatible`.  What applies to it: `bytes_compile_as_text_ascii_prefix` (texts whose first line is ASCII and
+decisive), `module_file_written` (its hypotheses are `Charwise` + ASCII identity), `module_file_roundtrip` (`AsciiPrefix`
++ `RoundTrip` – for shift_jis on the repertoire without U+00A5/U+203E), `bytes_vs_text_disagree_iff` (no codec law), and
+everything that does not mention a codec law; `bytes_compile_as_text`, `bom_bytes_compile_as_text` and
+`disagree_implies_not_headerOk` (strict law) do not. -/
+theorem ascii_prefix_only_codecs (c : Codec) (f : Char → Option Bytes) (hc : Charwise c f)
+    (hf : ∀ ch, isAsciiChar ch = true → f ch = some [ch.toNat])
+    (hlow : ∃ ch bs x, isAsciiChar ch = false ∧ f ch = some bs ∧ x ∈ bs ∧ x < 128) :
+    AsciiPrefix c ∧ ¬ AsciiCompatible c := prefix_only c f hc hf hlow
+
+-- instance: ASCII + `ソ` = 83 5C (the shift_jis bytes), `sjisCut`
+example : AsciiPrefix sjisCut ∧ ¬ AsciiCompatible sjisCut := sjisCut_prefix_only
 
 /-! ## 5. The module file: written with a magic comment, read back by the declared-encoding rule -/
 
